@@ -39,11 +39,14 @@ class Gen:
         rm = f', fp.RM.{r.choice(RMS)}' if r.random() < 0.5 else ''
         if c < 0.3:
             p = r.choice([1, 2, 2, 3, 4])
-            if r.random() < 0.25 and scope['int']:
-                return f'fp.MPFloatContext({r.choice(scope["int"])} + 1{rm})'
+            if r.random() < 0.3 and scope['int']:
+                v = r.choice(scope['int'])
+                return f'fp.MPFloatContext({r.choice([v, v + " + 1"])}{rm})'
             return f'fp.MPFloatContext({p}{rm})'
         if c < 0.55:
             n = r.choice([-3, -2, -1, 0, 1])
+            if r.random() < 0.2 and scope['int']:
+                return f'fp.MPFixedContext(-{r.choice(scope["int"])}{rm})'
             return f'fp.MPFixedContext({n}{rm})'
         if c < 0.75:
             es, nb = r.choice([(2, 4), (2, 5), (3, 5), (3, 6), (2, 6)])
@@ -145,6 +148,11 @@ class Gen:
                 return [f'{pad}if {r.choice(["False", "1 > 2", "True", "0.5 < 1"])}:',
                         f'{pad}    {self.fresh("d")} = {self.rexpr(scope)}']
             return [f'{pad}assert {r.choice(["True", "1 < 2", self.bexpr(scope)])}']
+        if r.random() < p.get('tuples', 0.06):
+            ws = [x for x in scope['real'] if x not in scope['ro']]
+            if len(ws) >= 2:
+                a, b = r.sample(ws, 2)
+                return [f'{pad}{a}, {b} = ({self.rexpr(scope, 1)}, {self.rexpr(scope, 1)})']
         # reassign or define a real
         if c < 0.3 or deep:
             if scope['real'] and r.random() < 0.6:
@@ -309,7 +317,7 @@ class Gen:
                 hn = f'{name}_h{j}'
                 parts.append(self.helper(hn, kind))
                 self.helper_sigs.append((hn, kind))
-        scope = {'real': ['x', 'y'], 'list': ['xs'], 'int': [], 'ro': [], 'cond': False}
+        scope = {'real': ['x', 'y', 'k'], 'list': ['xs'], 'int': ['k'], 'ro': ['k'], 'cond': False}
         deco = '@fp.fpy'
         if r.random() < 0.15:
             deco = f'@fp.fpy(ctx={self.ctx_expr({"int": []})})'
@@ -321,7 +329,7 @@ class Gen:
         lo, hi = self.p['stmts']
         body += self.block(scope, 0, r.randint(lo, hi), 1)
         body.append(f'    return {self.ret_expr(scope)}')
-        parts.append('\n'.join([deco, f'def {name}(x: fp.Real, y: fp.Real, xs: list[fp.Real]):'] + body))
+        parts.append('\n'.join([deco, f'def {name}(x: fp.Real, y: fp.Real, xs: list[fp.Real], k: fp.Real):'] + body))
         return '\n\n'.join(parts)
 
 
